@@ -95,11 +95,12 @@ PROPERTY_META = {
  "C04": dict(level="proof",
    text="Quire as a data structure with abstract view (two's-complement integer / 2^F): step contracts on the private fdp / fdp_one over an ARBITRARY "
         "pre-state (NaR absorbing; zero product = frame on all bits; otherwise new = old +- exact product on all bits when in range), to_posit = single "
-        "posit-rule rounding of the view over all 2^32 / 2^128 / 2^512 states, is_zero/is_nar/clear/from_bits/to_bits; the history part (any sequence, "
-        "any order) follows by induction over the step contract (integer addition commutes) and a direct 2-step commutation obligation. Discharged by Kani.",
-   note=_KANI_NOTE + " Q32 fdp / fdp_one step obligations (577 free bits) run in the thorough tier only. The induction over histories is a two-line "
-        "paper argument over the mechanically proved step contracts. linalg::quire_dot is not under contract.",
-   assumptions=["induction over operation histories from the per-step contract is done on paper", "tuple/array spellings are C17 obligations"]),
+        "posit-rule rounding of the view over all 2^32 / 2^128 / 2^512 states, is_zero/is_nar/clear/from_bits/to_bits (Kani); the history part (any sequence, "
+        "any order, NaR sticky) is the induction over the step contract, checked by Verus (lemmas/quire_history.rs: run = sum, adjacent swaps, NaR "
+        "absorbing), plus a direct 2-step commutation obligation on the real code.",
+   note=_KANI_NOTE + " Q32 fdp / fdp_one step obligations (577 free bits) run in the thorough tier only. The induction over histories is mechanised over an abstract model "
+        "of the step contract (view' = view + term); that the model is the contract is by inspection. linalg::quire_dot is not under contract.",
+   assumptions=["the Verus history model (view' = view + term, NaR absorbing) transcribes the Kani-proved step contract by inspection", "tuple/array spellings are C17 obligations"]),
  "C05": dict(level="proof",
    text="Postcondition fma_ok(op) (exact +-a*b+-c in wide fixed point, rounded once) on mul_add / mul_sub / sub_product: P8 over all 2^24 triples "
         "(quick), P16 over all 2^48 (thorough), P32 by an exhaustive 2-way split on the sign relation (thorough, hours).",
